@@ -8,7 +8,7 @@ import tempfile
 
 from hypothesis import strategies as st
 
-from vlib import hist, project, scratch, simsched
+from vlib import gen, hist, project, scratch, simsched
 from vlib.runner import CaseResult, Violation
 
 ID = "C10"
@@ -103,6 +103,7 @@ def _case(draw, tier):
         return o
 
     return {
+        "invoke": draw(gen.invoke()),
         "backend": b, "spec": spec, "mid_fail": mid_fail,
         "wd": draw(st.sampled_from(WDS + ["plain", "plain"])),
         "wf_defaults": opts(), "template_options": opts(), "options": opts(),
@@ -279,7 +280,7 @@ def run_case(case):
         cfg["clean_logs"] = case["clean_logs"]
     viols, labels = [], {"backend-" + b}
     final, unknown = expected_options(case)
-    with project.Project(desc, backend=b) as proj:
+    with project.Project(desc, backend=b, invoke=case.get("invoke")) as proj:
         proj.write_config(dict({"backend": b}, **cfg), via_cli=case.get("config_via") == "cli")
         wd = proj.path(case["wd"]) if t["wd"] else proj.dir
         os.makedirs(wd, exist_ok=True)
